@@ -379,6 +379,83 @@ def run_keyword_calls():
   return {'n': n, 'keys': n, 'viol': viol, 'sample': {'keyword_call': 'add(a=0, b=0)'}}
 
 
+def run_timeout_then_call():
+  """A pooled serial connection (watermark pool, max 1): call A's reply never comes and A times out in the transport; call B was
+  waiting for the connection.  B is an ordinary call to a healthy server: its bytes must reach the server's processor and it must
+  yield its return value, for every method/argument case."""
+  from scales.constants import SinkProperties
+  from scales.dispatch import MessageDispatcher
+  from scales.loadbalancer.zookeeper import Endpoint
+  from scales.message import MethodCallMessage
+  from scales.pool.watermark import WatermarkPoolSink
+  from scales.thrift.sink import ThriftSerializerSink, SocketTransportSink
+  import gevent
+  VSvc, VBase, T = vsvc()
+  viol = []
+  n = 0
+  lp = vloop.loop()
+  allc = [c for c in cases() if c[0] == 'vsvc' and c[1] != 'fire' and c[3] == 'value' and c[4] is not None][:6]
+  for case in allc:
+    ikey, method, args, outcome, value = case
+    n += 1
+    world.reset()
+    net = simnet.new_net()
+    handler = Handler()
+    net.add_endpoint('h0', 1000, lambda net, c: Peer(net, c, VSvc.Processor, handler))
+    a = ThriftSerializerSink.Builder()
+    pl = WatermarkPoolSink.Builder(min_watermark=1, max_watermark=1, max_queue_len=4)
+    b = SocketTransportSink.Builder()
+    a.next_provider = pl
+    pl.next_provider = b
+    top = a.CreateSink({SinkProperties.Endpoint: Endpoint('h0', 1000), SinkProperties.Label: 'svc', SinkProperties.ServiceInterface: VSvc.Iface})
+    gevent.spawn(lambda: top.next_sink.Open().wait())
+
+    def pump(until=None):
+      for _ in range(400):
+        vloop.run_ready()
+        evs = net.enabled_events()
+        if evs:
+          net.fire(evs[0], 'ok')
+          continue
+        t = lp.next_timer()
+        if until is None or t is None or t.at > until:
+          break
+        lp.fire(t)
+      vloop.run_ready()
+    pump()
+    handler.outcome, handler.value = 'value', 'first'
+    arA = MessageDispatcher.StaticDispatchMessage(top, None, lp.now(), lp.now() + 0.1025, MethodCallMessage(VSvc.Iface, 'echo', ('A',), {}))
+    pump()
+    handler.outcome, handler.value = 'value', value
+    arB = MessageDispatcher.StaticDispatchMessage(top, None, lp.now(), None, MethodCallMessage(VSvc.Iface, method, args, {}))
+    pump()
+    # A's reply is never delivered; time passes, A times out, the transport recovers, B gets the connection
+    for c in net.conns:
+      if c.peer is not None:
+        c.peer.replies[:] = []
+    pump(until=lp.now() + 1.0)
+    # deliver whatever the server has produced for B
+    for _ in range(3):
+      for c in net.conns:
+        if c.peer is not None and c.peer.replies and not c.client_closed:
+          c.rx += c.peer.replies.pop(0)
+          c.wake()
+      pump(until=lp.now() + 0.2)
+    gotA, gotB = observe(arA), observe(arB)
+    bad = None
+    if gotA[0] != 'error' and not (gotA[0] == 'scales-error' and gotA[1] == 'TimeoutError') and 'Timeout' not in repr(gotA):
+      bad = 'call A (reply withheld, 102.5 ms deadline) observed %r' % (gotA,)
+    elif handler.calls[-1] != (method, args):
+      bad = 'the server never decoded call B (last decoded: %r); B observed %r' % (handler.calls[-1], gotB)
+    elif gotB != ('value', value):
+      bad = 'call B observed %r, expected %r' % (gotB, ('value', value))
+    if bad:
+      viol.append({'clause': 'C14.outcome', 'message': 'pooled connection, call A timed out, then %s%r: %s' % (method, args, bad),
+                   'sig': {'method': method, 'after_timeout': True}})
+      break
+  return {'n': n, 'keys': n, 'viol': viol, 'sample': {'timeout_then_call': [c[1] for c in allc]}}
+
+
 def wsvc():
   from ..gen_py.wsvc import WSvc, WBase
   return WSvc, WBase
@@ -547,6 +624,7 @@ def main(tier, seed):
     out += explore.pmap('vt.checks.c14', 'run_sequences', [([i],) for i in range(len(allc))], pool, seed)
     out += explore.pmap('vt.checks.c14', 'run_two_services', [()], pool, seed)
     out += explore.pmap('vt.checks.c14', 'run_keyword_calls', [()], pool, seed)
+    out += explore.pmap('vt.checks.c14', 'run_timeout_then_call', [()], pool, seed)
     out += explore.pmap('vt.checks.c14', 'run_readall', [(7 if tier == 'quick' else 9, 3 if tier == 'quick' else 4)], pool, seed)
   finally:
     pool.close()
